@@ -38,3 +38,13 @@ Theorem C04_dotless_wildcard_refuted :
   existsb (fun r => negb (containsb "." r)) registry_rule_ids = true
   /\ forallb (fun r => containsb "." r || (rule_matches r r && negb (rule_matches r (r ++ ".*")))) registry_rule_ids = true.
 Proof. vm_compute. split; reflexivity. Qed.
+
+(* file-header: the "no header at all" violation (line 1) is returned without passing the violation filter: a same-line directive
+   on line 1 naming the rule does not remove it (a file-level directive does) *)
+Definition w_fh_missing : list aline := [LSame "import re" Hash (Names "file-header"); LPlain "x = 1"].
+Theorem C04_missing_header_unfiltered_refuted :
+  file_ok w_fh_missing = true /\ target_ok w_fh_missing 1 = true
+  /\ suppressed ignore_actual (pipeline_of "file_header_missing" "py") (render w_fh_missing) 1 fh_rule_id = false
+  /\ spec false w_fh_missing 1 fh_rule_id = true
+  /\ suppressed ignore_actual (pipeline_of "file_header" "py") (render w_fh_missing) 1 fh_rule_id = true.
+Proof. vm_compute. repeat split; reflexivity. Qed.
